@@ -202,7 +202,8 @@ COQ_EVAL = """From Coq Require Import List String Arith Bool. Import ListNotatio
 From GV Require Import C29.Model.
 Open Scope string_scope.
 (* a case: injected header, RemoteMessage.Metadata seen on the wire (None: not captured), restored header set (None: no Extract) *)
-Definition case_t := (hdr * option md * option md)%%type.
+(* + the wire metadata the sender's context already carried (pre-attached / inbound frame of a relaying actor) *)
+Definition case_t := (hdr * option md * option md * option md)%%type.
 Fixpoint nodupb (l : list string) : bool :=
   match l with [] => true | x :: r => negb (existsb (String.eqb x) r) && nodupb r end.
 Definition sourced (m g : md) : bool :=
@@ -210,8 +211,8 @@ Definition sourced (m g : md) : bool :=
   forallb (fun q => match lookup (canon (fst q)) g with Some _ => true | None => false end) m &&
   nodupb (map fst g).
 Definition check (c : case_t) : nat :=
-  match c with (h, wire, got) =>
-    let m := first_values h in
+  match c with (h, wire, got, attached) =>
+    let m := enrich attached h in
     if match wire with Some w => negb (md_eqb w m) | None => false end then 1
     else match m, got with
          | [], None => 0
@@ -267,6 +268,8 @@ def run(ctx):
                     ctx.tie_broken("harness: message not observed", what)
                 continue
             n_viol += 1
+            if o["part"].startswith("relay"):
+                sig += ":relayed-send"   # second hop of client -> relay actor -> leaf
             if sig not in reported and len(reported) < 5:
                 reported[sig] = 1
                 ctx.violation(sig, what, {"group": gmap.get(o["group"]), "record": o,
@@ -287,17 +290,23 @@ def run(ctx):
             if per_msg is not None and not per_msg:
                 per_msg = None  # direct path: an Extract with an empty header set (deadline-only metadata) restores nothing
         wire = o.get("wire") if o["part"] == "batchings" else None
-        key = canon_hash([o.get("injected") or [], wire, per_msg])
+        attached = None
+        if o["part"] == "ask-preattached":
+            attached = [("X-Stale-Upstream", "s"), ("Traceparent", "00-stale-00")]
+        elif o["part"].startswith("relay"):
+            attached = [("X-Inbound-Hop", "1")]  # stands for the first hop's frame metadata
+        key = canon_hash([o.get("injected") or [], wire, per_msg, attached])
         if key not in seen:
-            seen[key] = (o.get("injected") or [], wire, per_msg, o["id"])
+            seen[key] = (o.get("injected") or [], wire, per_msg, o["id"], attached)
     triples = list(seen.values())
     mism = None
     if triples:
         defs, names = [], []
-        for i, (inj, wire, got, _) in enumerate(triples):
+        for i, (inj, wire, got, _, attached) in enumerate(triples):
             w = "None" if wire is None else "Some %s" % coq_md([(e["k"], e["v"][0]) for e in wire])
             g = "None" if got is None else "Some %s" % coq_md([(e["k"], (e["v"] or [""])[0]) for e in got])
-            defs.append("Definition c%d : case_t := (%s, %s, %s)." % (i, coq_hdr(inj), w, g))
+            a = "None" if attached is None else "Some %s" % coq_md(attached)
+            defs.append("Definition c%d : case_t := (%s, %s, %s, %s)." % (i, coq_hdr(inj), w, g, a))
             names.append("c%d" % i)
         rc2, o2 = ctx.coq_eval("cases_C29", COQ_EVAL % ("\n".join(defs), "; ".join(names)), timeout=300)
         flat = " ".join(o2.split()).replace("%nat", "")
@@ -321,7 +330,7 @@ def run(ctx):
     for o in recs:
         parts[o["part"]] = parts.get(o["part"], 0) + 1
     kinds = {"noncanonical_key": 0, "multi_value": 0, "empty_value_list": 0, "no_headers": 0, "colliding_keys": 0, "invalid_key_byte": 0}
-    for inj, _, _, _ in triples:
+    for inj, _, _, _, _ in triples:
         ks = [e["k"] for e in inj]
         kinds["no_headers"] += not inj
         kinds["noncanonical_key"] += any(canon(k) != k for k in ks)
@@ -331,13 +340,14 @@ def run(ctx):
         kinds["invalid_key_byte"] += any(any(c not in TOKEN for c in k) for k in ks)
     ctx.coverage.update({
         "evaluations": len(recs),
-        "distinct_nontrivial": sum(1 for inj, _, got, _ in triples if inj),
+        "distinct_nontrivial": sum(1 for inj, _, got, _, _ in triples if inj),
         "rule": "(plus per group 6 first-hop asks with pre-attached stale metadata and 24 two-hop relays whose second hop injects the next message's headers) groups of 6 messages (corpus + seeded: canonical single-valued, multi-valued via Add/raw, raw non-canonical keys, case-colliding keys, empty value lists, no headers; every group mixes messages with and without headers); every group is delivered in all 32 batchings x (with/without request-level metadata), through the real coalescer with 3 concurrent callers, as direct tells and as asks; evaluations = messages observed; distinct_nontrivial = distinct (injected, wire, restored) triples with a non-empty injected header map",
         "samples": [groups[0]["specs"][:3], recs[3] if len(recs) > 3 else None, recs[-1] if recs else None],
         "records_by_part": parts, "header_kinds_in_distinct_cases": kinds,
         "coq_cases": len(triples), "coq_mismatches": mism, "oracle_violations": n_viol,
         "theorems": ["C29_restored_is_canon_first_values", "C29_full", "C29_sound", "C29_complete", "C29_batching_invisible",
-                     "C29_same_messages_same_contexts", "C29_message_context"],
+                     "C29_same_messages_same_contexts", "C29_message_context",
+                     "C29_attached_metadata_ignored", "C29_relayed_send_restores_own_headers"],
     })
 
 
